@@ -245,53 +245,76 @@ func ruleC19Load(cx *Ctx) {
 	decN, decOK := 0, true
 	var decAt ssa.Instruction
 	var decLoop map[*ssa.BasicBlock]bool
+	// the decode step: in the loader's loop, or in a helper the loop calls per record (whose locals are fresh per call)
+	decFns := []*ssa.Function{loopFn}
 	allInstrs(loopFn, func(in ssa.Instruction) {
-		c, ok := in.(*ssa.Call)
-		if !ok || c.Call.StaticCallee() == nil || c.Call.StaticCallee().Name() != "Decode" || len(c.Call.Args) < 2 {
-			return
+		if g := calleeOf(in); g != nil && g.Pkg != nil && g.Pkg == loopFn.Pkg && len(origin(g).Blocks) > 0 {
+			decFns = append(decFns, origin(g))
 		}
-		arg := c.Call.Args[1]
-		if mi, ok := arg.(*ssa.MakeInterface); ok {
-			arg = mi.X
-		}
-		pt, isPtr := arg.Type().Underlying().(*types.Pointer)
-		if !isPtr || namedTypeName(pt.Elem()) != "Entry" {
-			return
-		}
-		decN++
-		decAt = c
-		al, ok := arg.(*ssa.Alloc)
-		if !ok {
-			decOK = false
-			return
-		}
-		var loop map[*ssa.BasicBlock]bool
-		for h := range loopHeaders(loopFn) {
-			if l := naturalLoop(h); l[c.Block()] && (loop == nil || len(l) < len(loop)) {
-				loop = l
+	})
+	for _, decFn := range decFns {
+		decFn := decFn
+		allInstrs(decFn, func(in ssa.Instruction) {
+			c, ok := in.(*ssa.Call)
+			if !ok || c.Call.StaticCallee() == nil || c.Call.StaticCallee().Name() != "Decode" || len(c.Call.Args) < 2 {
+				return
 			}
-		}
-		decLoop = loop
-		if loop == nil || loop[al.Block()] {
-			return
-		}
-		reset := false
-		for _, r := range *al.Referrers() {
-			if st, ok := r.(*ssa.Store); ok && st.Addr == ssa.Value(al) && loop[st.Block()] && instrDominates(st, c) {
-				if _, fresh := st.Val.(*ssa.Const); fresh {
-					reset = true
+			arg := c.Call.Args[1]
+			if mi, ok := arg.(*ssa.MakeInterface); ok {
+				arg = mi.X
+			}
+			pt, isPtr := arg.Type().Underlying().(*types.Pointer)
+			if !isPtr || namedTypeName(pt.Elem()) != "Entry" {
+				return
+			}
+			decN++
+			decAt = c
+			al, ok := arg.(*ssa.Alloc)
+			if !ok {
+				decOK = false
+				return
+			}
+			var loop map[*ssa.BasicBlock]bool
+			for h := range loopHeaders(decFn) {
+				if l := naturalLoop(h); l[c.Block()] && (loop == nil || len(l) < len(loop)) {
+					loop = l
 				}
-				if ld, ok := st.Val.(*ssa.UnOp); ok && ld.Op == token.MUL {
-					if a2, ok := ld.X.(*ssa.Alloc); ok && loop[a2.Block()] {
+			}
+			if decFn == loopFn {
+				decLoop = loop
+			} else if loop == nil {
+				// the helper is called from the loader's loop: that call site's loop is the record loop
+				allInstrs(loopFn, func(x ssa.Instruction) {
+					if isCallTo(x, decFn) {
+						for h := range loopHeaders(loopFn) {
+							if l := naturalLoop(h); l[x.Block()] && (decLoop == nil || len(l) < len(decLoop)) {
+								decLoop = l
+							}
+						}
+					}
+				})
+			}
+			if loop == nil || loop[al.Block()] {
+				return
+			}
+			reset := false
+			for _, r := range *al.Referrers() {
+				if st, ok := r.(*ssa.Store); ok && st.Addr == ssa.Value(al) && loop[st.Block()] && instrDominates(st, c) {
+					if _, fresh := st.Val.(*ssa.Const); fresh {
 						reset = true
+					}
+					if ld, ok := st.Val.(*ssa.UnOp); ok && ld.Op == token.MUL {
+						if a2, ok := ld.X.(*ssa.Alloc); ok && loop[a2.Block()] {
+							reset = true
+						}
 					}
 				}
 			}
-		}
-		if !reset {
-			decOK = false
-		}
-	})
+			if !reset {
+				decOK = false
+			}
+		})
+	}
 	cx.R.Check(decN >= 1 && decOK, rFilter, name, "fresh decode target", cx.P.where(decAt), "every record is decoded into a zero-valued Entry of its own iteration (gob does not overwrite fields that were saved as zero)")
 	cx.R.Check(instrDominates(now, set), rFilter, name, "clock sampled per entry", cx.P.where(now), "the clock is sampled for every entry before it is inserted")
 	// restore
@@ -462,13 +485,28 @@ func ruleC19Save(cx *Ctx) {
 	cx.R.Check(hot, rule, funcName(fn), "source", cx.P.Pos(fn.Pos()), "the saved entries come from the Hottest() iterator")
 	// stop at the maximum, inside the range body
 	stop := false
+	bodies := []*ssa.Function{}
 	withClosures(fn, func(f *ssa.Function) {
+		bodies = append(bodies, f)
+		allInstrs(f, func(in ssa.Instruction) {
+			// the loop body may be a method value (saver.save) or delegate to a helper
+			if mc, ok := in.(*ssa.MakeClosure); ok {
+				if bm := boundMethod(mc); bm != nil && len(origin(bm).Blocks) > 0 {
+					bodies = append(bodies, origin(bm))
+				}
+			}
+			if g := calleeOf(in); g != nil && g.Pkg != nil && g.Pkg == fn.Pkg && len(origin(g).Blocks) > 0 {
+				bodies = append(bodies, origin(g))
+			}
+		})
+	})
+	for _, f := range bodies {
 		allInstrs(f, func(in ssa.Instruction) {
 			if b, ok := in.(*ssa.BinOp); ok && (b.Op == token.GEQ || b.Op == token.LSS) {
 				stop = true
 			}
 		})
-	})
+	}
 	cx.R.Check(stop, rule, funcName(fn), "bound", cx.P.Pos(fn.Pos()), "saving stops when the accumulated weight reaches the maximum")
 	// evictionOrder's iterator: Lock ≺ maintenance ≺ enumeration, unconditionally
 	withClosures(eo, func(f *ssa.Function) {
